@@ -13,7 +13,12 @@
     * C04  a packet that timed out is never received, and a received packet never times out;
     * C06  an acknowledgement callback carries the acknowledgement the receiver wrote for that packet
            (success ↦ result ack; failure ↦ v1 error ack / v2 sentinel);
-    * C03  at most one of acknowledgement / timeout callback completes per packet.
+    * C03  at most one of acknowledgement / timeout / timeout-on-close callback completes per packet;
+    * C14/C03 (`NeverReceivedOnClose`, the `onClose = true` instance of the timeout guard): a packet may
+           complete by `MsgTimeoutOnClose` — the counterparty channel end is proven CLOSED — only if it
+           was never received there (unordered: receipt absent; ordered: next-sequence-receive not past
+           it), and not after another terminal outcome.  The ICS-20 callback is the same
+           `OnTimeoutPacket`.
 -/
 import IbcVerif.Lemmas.Ics20Step
 namespace IbcVerif.Ics20
@@ -36,9 +41,10 @@ def Guard (w : World) : Op → Prop
   | .ack p a =>
       p ∈ w.sent ∧ (∃ b, (p, b) ∈ w.recvd ∧ a = ackFor p b) ∧                                -- C06
       p ∉ w.acked ∧ p ∉ w.timedOut                                                           -- C03
-  | .timeout p =>
-      p ∈ w.sent ∧ (∀ b, (p, b) ∉ w.recvd) ∧                                                  -- C04
-      p ∉ w.acked ∧ p ∉ w.timedOut                                                           -- C03
+  | .timeout p onClose =>
+      p ∈ w.sent ∧ (∀ b, (p, b) ∉ w.recvd) ∧                                                  -- C04 / C14
+      p ∉ w.acked ∧ p ∉ w.timedOut ∧                                                         -- C03
+      (onClose = true → p.v2 = false)                       -- `MsgTimeoutOnClose` exists for v1 channels only
   | .setParams _ _ _ => True
   | .bankSend _ _ _ _ _ => True
 
@@ -66,7 +72,7 @@ theorem step_acked_mono (cfg : Config) (w : World) (op : Op) (p : Packet) (h : p
     split
     · exact List.mem_cons_of_mem _ h
     · exact h
-  | timeout q => simp only [step]; split <;> exact h
+  | timeout q oc => simp only [step]; split <;> exact h
   | setParams c s r => exact h
   | bankSend c f t d n =>
     simp only [step]
@@ -87,7 +93,7 @@ theorem step_timedOut_mono (cfg : Config) (w : World) (op : Op) (p : Packet) (h 
   | sendV2 c s cl d ce seq => simp only [step]; split <;> exact h
   | recv q => simp only [step]; split <;> exact h
   | ack q a => simp only [step]; split <;> exact h
-  | timeout q =>
+  | timeout q oc =>
     simp only [step]
     split
     · exact List.mem_cons_of_mem _ h
@@ -105,7 +111,7 @@ def refundCount (cfg : Config) (p : Packet) : World → List Op → Nat
   | _, [] => 0
   | w, op :: ops =>
     (match op with
-     | .timeout q => if q = p ∧ (step cfg w op).2 = .ok then 1 else 0
+     | .timeout q _ => if q = p ∧ (step cfg w op).2 = .ok then 1 else 0
      | .ack q a => if q = p ∧ a ≠ .result ∧ (step cfg w op).2 = .ok then 1 else 0
      | _ => 0) + refundCount cfg p (step cfg w op).1 ops
 
@@ -124,14 +130,14 @@ theorem refundCount_zero_of_resolved (cfg : Config) (p : Packet) :
       · exact Or.inr (step_timedOut_mono cfg w op p h)
     simp only [refundCount, ih _ hl' hres', Nat.add_zero]
     cases op with
-    | timeout q =>
+    | timeout q oc =>
       simp only
       split_ifs with hq
       · obtain ⟨rfl, _⟩ := hq
         simp only [Guard] at hg
         rcases hres with h | h
         · exact absurd h hg.2.2.1
-        · exact absurd h hg.2.2.2
+        · exact absurd h hg.2.2.2.1
       · rfl
     | ack q a =>
       simp only
@@ -161,12 +167,12 @@ theorem refundCount_le_one (cfg : Config) (p : Packet) :
     have hrest := ih _ hl'
     simp only [refundCount]
     cases op with
-    | timeout q =>
+    | timeout q oc =>
       simp only
       split_ifs with hq
       · obtain ⟨rfl, hok⟩ := hq
-        rcases step_timeout_cases cfg w q with ⟨ch', _, hstep⟩ | ⟨_, hne⟩
-        · have : q ∈ (step cfg w (.timeout q)).1.timedOut := by rw [hstep]; exact List.mem_cons_self
+        rcases step_timeout_cases cfg w q oc with ⟨ch', _, hstep⟩ | ⟨_, hne⟩
+        · have : q ∈ (step cfg w (.timeout q oc)).1.timedOut := by rw [hstep]; exact List.mem_cons_self
           rw [refundCount_zero_of_resolved cfg q ops _ hl' (Or.inr this)]; omega
         · exact absurd hok hne
       · omega
